@@ -312,3 +312,300 @@ Proof.
   intros A key l. unfold sort_desc. induction l as [|x l IH]; cbn [fold_right]; [constructor|].
   eapply perm_trans; [apply perm_skip; exact IH|apply insert_desc_perm].
 Qed.
+
+(* ================================================================== C06: month step *)
+
+Definition static_ok (st : sstatic) : Prop :=
+  0 < st_hours st /\ 0 <= st_base_sl st /\ 0 <= st_target st /\ 0 <= st_death st /\ 0 <= st_starv st /\
+  0 <= st_retfrac st /\ 0 <= st_perpreg st /\ 0 < st_ratio st /\ 0 < st_gest st /\
+  (0 <= st_red st /\ st_red st <= 1).
+
+Definition state_ok (s : sstate) : Prop :=
+  0 <= s_pop s /\ 0 <= s_sl s /\ 0 <= s_ptot s /\ 0 <= s_pbirth s.
+
+(* ---- calculate_animal_population *)
+Lemma animal_population_spec : forall pop additive deaths planned target, 0 <= target ->
+  let pre := pop - deaths + additive in
+  let '(a, p1) := animal_population pop additive deaths planned target in
+  0 <= a /\ 0 <= p1 /\
+  (0 <= pre -> p1 == pre - a) /\ (pre < 0 -> a == 0 /\ p1 == 0) /\
+  (a == 0 \/ (0 < a /\ a <= planned)) /\
+  (target <= pre -> target <= p1) /\ (pre < target -> a == 0).
+Proof.
+  intros pop additive deaths planned target Ht pre. unfold animal_population. fold pre.
+  destruct (Qltb pre target) eqn:E1; [apply Qltb_true in E1|apply Qltb_false in E1].
+  - (* below target: no slaughter *)
+    assert (Z : Qltb 0 0 = false) by reflexivity. rewrite Z.
+    destruct (Qltb (pre - 0) 0) eqn:E3; [apply Qltb_true in E3|apply Qltb_false in E3];
+      repeat split; try lra; try (left; reflexivity); try (intros; lra).
+  - destruct (Qltb (pre - planned) target) eqn:E2; [apply Qltb_true in E2|apply Qltb_false in E2].
+    + destruct (Qltb (pre - target) 0) eqn:E3; [apply Qltb_true in E3|apply Qltb_false in E3]; [lra|].
+      destruct (Qltb (pre - (pre - target)) 0) eqn:E4; [apply Qltb_true in E4|apply Qltb_false in E4]; [lra|].
+      repeat split; try lra; try (intros; lra).
+    + destruct (Qltb planned 0) eqn:E3; [apply Qltb_true in E3|apply Qltb_false in E3].
+      * destruct (Qltb (pre - 0) 0) eqn:E4; [apply Qltb_true in E4|apply Qltb_false in E4]; [lra|].
+        repeat split; try lra; try (left; reflexivity); try (intros; lra).
+      * destruct (Qltb (pre - planned) 0) eqn:E4; [apply Qltb_true in E4|apply Qltb_false in E4]; [lra|].
+        repeat split; try lra; try (intros; lra).
+Qed.
+
+(* ---- calculate_slaughter_rate: never plans more than the remaining hours allow *)
+Lemma slaughter_rate_spec : forall month0 st s remaining, 0 < st_hours st ->
+  let planned := slaughter_rate month0 st s remaining in
+  (remaining <= 0 -> planned == 0) /\ (0 < remaining -> planned * st_hours st <= remaining).
+Proof.
+  intros month0 st s remaining Hh planned. subst planned. unfold slaughter_rate.
+  destruct (Qltb 0 remaining) eqn:E; [apply Qltb_true in E|apply Qltb_false in E].
+  - split; [intro; lra|]. intros _.
+    rewrite div_mul_cancel by lra.
+    destruct (pymin_cases ((if month0 then st_base_sl st else s_sl s) * st_hours st) remaining) as [[L ->]|[L ->]]; lra.
+  - split; [intros; reflexivity|intro; lra].
+Qed.
+
+Lemma zero_div : forall h, 0 / h == 0.
+Proof. intro h. unfold Qdiv. ring. Qed.
+
+(* ---- body of the slaughter loop *)
+Lemma phase_b_spec : forall month0 st a tr remaining, static_ok st -> 0 <= remaining ->
+  let b := phase_b month0 st a tr remaining in
+  let ret := if st_milk st then a_ret a else 0 in
+  let pre := s_pop (a_state a) - (b_other_death b + ret) + b_additive b in
+  b_additive b = (if st_milk st then a_births a else a_births a + tr) /\
+  b_transfer b = (if st_milk st then - tr else tr) /\
+  b_other_death b = s_pop (a_state a) * st_death st /\
+  0 <= b_slaughter b /\ 0 <= b_pop1 b /\
+  (0 <= pre -> b_pop1 b == pre - b_slaughter b) /\ (pre < 0 -> b_slaughter b == 0 /\ b_pop1 b == 0) /\
+  (st_target st <= pre -> st_target st <= b_pop1 b) /\ (pre < st_target st -> b_slaughter b == 0) /\
+  b_remaining b == remaining - b_slaughter b * st_hours st /\ 0 <= b_remaining b /\
+  0 <= b_ptot b /\ 0 <= b_pbirth b.
+Proof.
+  intros month0 st a tr remaining Hok Hrem.
+  destruct Hok as (Hh & Hbs & Ht & Hd & Hsv & Hrf & Hpp & Hra & Hge & Hred).
+  unfold phase_b.
+  pose proof (animal_population_spec (s_pop (a_state a)) (if st_milk st then a_births a else a_births a + tr)
+                (s_pop (a_state a) * st_death st + (if st_milk st then a_ret a else 0))
+                (slaughter_rate month0 st (a_state a) remaining) (st_target st) Ht) as AP.
+  destruct (animal_population _ _ _ _ _) as [actual p1]. cbn zeta in AP.
+  destruct (slaughter_rate_spec month0 st (a_state a) remaining Hh) as [S0 S1].
+  assert (PS : 0 <= fst (pregnant_slaughter st (a_state a) actual)).
+  { unfold pregnant_slaughter.
+    destruct (if Qeq_bool (s_pfrac (a_state a)) 0 then _ else _) as [pt sp]. cbn [fst]. btest; lra. }
+  destruct (pregnant_slaughter st (a_state a) actual) as [pt sp]. cbn [fst] in PS.
+  cbn [b_additive b_transfer b_other_death b_slaughter b_pop1 b_remaining b_ptot b_pbirth].
+  destruct AP as (A0 & P0 & P1 & P2 & A1 & T1 & T2).
+  repeat split; try assumption; try reflexivity; try lra.
+  - destruct A1 as [Z|[Z1 Z2]]; [nra|].
+    destruct (Qlt_le_dec 0 remaining) as [L|L].
+    + specialize (S1 L). nra.
+    + specialize (S0 L). lra.
+  - apply div_nonneg; assumption.
+Qed.
+
+(* ---- homekill / starvation / final population with the country's constants (no homekill hours) *)
+Lemma phase_c_spec : forall st pop_start sv b, 0 < st_hours st -> 0 <= st_starv st -> 0 <= b_other_death b ->
+  0 <= b_ptot b -> 0 <= b_pbirth b ->
+  let c := phase_c st pop_start sv b hk_hours_total in
+  c_hk_other c == 0 /\ c_hk_healthy c == 0 /\ c_hk_starving c == 0 /\ c_hk_total c == 0 /\ c_budget c == 0 /\
+  0 <= c_starve_death c /\ c_od_total c == c_starve_death c + b_other_death b /\
+  (sv - b_slaughter b <= 0 -> c_starve_death c == 0) /\
+  (0 <= sv - b_slaughter b -> c_starve_death c == (sv - b_slaughter b) * st_starv st) /\
+  (0 <= b_pop1 b - c_starve_death c -> c_pop c == b_pop1 b - c_starve_death c) /\
+  (b_pop1 b - c_starve_death c <= 0 -> c_pop c == 0) /\
+  0 <= c_ptot c /\ 0 <= c_pbirth c.
+Proof.
+  intros st pop_start sv b Hh Hsv Hod Hpt Hpb. unfold phase_c, hk_hours_total, hk_other_rate, hk_fraction.
+  pose proof (zero_div (st_hours st)) as Z.
+  set (h := st_hours st) in *.
+  (* hk1 *)
+  assert (H1 : pymin (b_other_death b * (1 # 2)) (0 / h) == 0).
+  { destruct (pymin_cases (b_other_death b * (1 # 2)) (0 / h)) as [[L ->]|[L ->]]; lra. }
+  set (hk1 := pymin (b_other_death b * (1 # 2)) (0 / h)) in *.
+  assert (B1 : 0 - hk1 * h == 0) by (rewrite H1; ring).
+  set (bud1 := 0 - hk1 * h) in *.
+  assert (Z1 : bud1 / h == 0) by (rewrite B1; exact Z).
+  assert (H2 : pymin (0 * b_pop1 b) (bud1 / h) == 0).
+  { destruct (pymin_cases (0 * b_pop1 b) (bud1 / h)) as [[L ->]|[L ->]]; lra. }
+  set (hk2 := pymin (0 * b_pop1 b) (bud1 / h)) in *.
+  assert (B2 : bud1 - hk2 * h == 0) by (rewrite B1, H2; ring).
+  set (bud2 := bud1 - hk2 * h) in *.
+  assert (Z2 : bud2 / h == 0) by (rewrite B2; exact Z).
+  set (sv0 := sv - b_slaughter b - hk2) in *.
+  assert (S1 : 0 <= (if Qltb sv0 0 then 0 else sv0)) by (btest; lra).
+  assert (S1a : sv0 <= 0 -> (if Qltb sv0 0 then 0 else sv0) == 0) by (intro; btest; lra).
+  assert (S1b : 0 <= sv0 -> (if Qltb sv0 0 then 0 else sv0) == sv0) by (intro; btest; lra).
+  set (sv1 := if Qltb sv0 0 then 0 else sv0) in *.
+  assert (C0 : (if Qltb (bud2 / h) 0 then 0 else bud2 / h) == 0) by (btest; lra).
+  set (cap := if Qltb (bud2 / h) 0 then 0 else bud2 / h) in *.
+  assert (H3 : pymin sv1 cap == 0).
+  { destruct (pymin_cases sv1 cap) as [[L ->]|[L ->]]; lra. }
+  set (hk3 := pymin sv1 cap) in *.
+  assert (S2 : pymax (sv1 - hk3) 0 == sv1).
+  { destruct (pymax_cases (sv1 - hk3) 0) as [[L ->]|[L ->]]; lra. }
+  set (sv2 := pymax (sv1 - hk3) 0) in *.
+  assert (SD : 0 <= sv2 * st_starv st) by (rewrite S2; nra).
+  set (sd := sv2 * st_starv st) in *.
+  assert (PT : 0 <= fst (if Qeq_bool (st_red st) 0 && Qeq_bool (st_tfrac st) 1 && Qltb sd 10
+              then (b_ptot b, b_pbirth b)
+              else (if Qltb (b_ptot b - b_ptot b * (if Qeq_bool pop_start 0 then 1 else (sd + b_other_death b) / pop_start)) 0 then 0
+                    else b_ptot b - b_ptot b * (if Qeq_bool pop_start 0 then 1 else (sd + b_other_death b) / pop_start),
+                    if Qltb (b_pbirth b - b_pbirth b * (if Qeq_bool pop_start 0 then 1 else (sd + b_other_death b) / pop_start)) 0 then 0
+                    else b_pbirth b - b_pbirth b * (if Qeq_bool pop_start 0 then 1 else (sd + b_other_death b) / pop_start))) /\
+             0 <= snd (if Qeq_bool (st_red st) 0 && Qeq_bool (st_tfrac st) 1 && Qltb sd 10
+              then (b_ptot b, b_pbirth b)
+              else (if Qltb (b_ptot b - b_ptot b * (if Qeq_bool pop_start 0 then 1 else (sd + b_other_death b) / pop_start)) 0 then 0
+                    else b_ptot b - b_ptot b * (if Qeq_bool pop_start 0 then 1 else (sd + b_other_death b) / pop_start),
+                    if Qltb (b_pbirth b - b_pbirth b * (if Qeq_bool pop_start 0 then 1 else (sd + b_other_death b) / pop_start)) 0 then 0
+                    else b_pbirth b - b_pbirth b * (if Qeq_bool pop_start 0 then 1 else (sd + b_other_death b) / pop_start)))).
+  { destruct (Qeq_bool (st_red st) 0 && Qeq_bool (st_tfrac st) 1 && Qltb sd 10); cbn [fst snd]; [split; assumption|].
+    split; btest; lra. }
+  destruct (if Qeq_bool (st_red st) 0 && Qeq_bool (st_tfrac st) 1 && Qltb sd 10 then _ else _) as [pt pb].
+  cbn [fst snd] in PT. destruct PT as [PT PB].
+  cbn [c_hk_other c_hk_healthy c_hk_starving c_hk_total c_budget c_starve_death c_od_total c_pop c_ptot c_pbirth].
+  assert (SDa : sv - b_slaughter b <= 0 -> sd == 0).
+  { intro H. subst sd. rewrite S2. rewrite S1a; [ring|]. subst sv0. lra. }
+  assert (SDb : 0 <= sv - b_slaughter b -> sd == (sv - b_slaughter b) * st_starv st).
+  { intro H. subst sd. rewrite S2. rewrite S1b; subst sv0; [|lra]. rewrite H2. ring. }
+  repeat split; try assumption; try lra.
+  - rewrite B2, H3. ring.
+  - intro H. btest; lra.
+  - intro H. btest; lra.
+Qed.
+
+(* ---- the ledger of one herd and one month, single clamp *)
+Lemma ledger_one : forall month0 st a tr remaining sv, static_ok st -> 0 <= remaining -> 0 <= s_pop (a_state a) ->
+  let b := phase_b month0 st a tr remaining in
+  let c := phase_c st (s_pop (a_state a)) sv b hk_hours_total in
+  let x := s_pop (a_state a) + a_births a + (if st_milk st then 0 else tr) - (if st_milk st then a_ret a else 0)
+           - b_other_death b - b_slaughter b - c_starve_death c - c_hk_healthy c - c_hk_starving c in
+  (0 <= x -> c_pop c == x) /\ (x <= 0 -> c_pop c == 0) /\ 0 <= c_pop c.
+Proof.
+  intros month0 st a tr remaining sv Hok Hrem Hpop.
+  pose proof (phase_b_spec month0 st a tr remaining Hok Hrem) as B. cbn zeta in B.
+  destruct Hok as (Hh & Hbs & Ht & Hd & Hsv & Hrf & Hpp & Hra & Hge & Hred).
+  destruct B as (Ba & Bt & Bo & Bs & Bp & B1 & B2 & _ & _ & _ & _ & Bpt & Bpb).
+  assert (Hod : 0 <= b_other_death (phase_b month0 st a tr remaining)) by (rewrite Bo; nra).
+  pose proof (phase_c_spec st (s_pop (a_state a)) sv _ Hh Hsv Hod Bpt Bpb) as C. cbn zeta in C.
+  destruct C as (_ & C2 & C3 & _ & _ & C6 & _ & _ & _ & C10 & C11 & _).
+  cbn zeta. rewrite Ba in *.
+  set (b := phase_b month0 st a tr remaining) in *.
+  set (c := phase_c st (s_pop (a_state a)) sv b hk_hours_total) in *.
+  set (pre := s_pop (a_state a) - (b_other_death b + (if st_milk st then a_ret a else 0)) +
+              (if st_milk st then a_births a else a_births a + tr)) in *.
+  assert (Ex : s_pop (a_state a) + a_births a + (if st_milk st then 0 else tr) - (if st_milk st then a_ret a else 0)
+               - b_other_death b - b_slaughter b - c_starve_death c - c_hk_healthy c - c_hk_starving c
+               == pre - b_slaughter b - c_starve_death c).
+  { subst pre. rewrite C2, C3. destruct (st_milk st); ring. }
+  rewrite Ex.
+  destruct (Qlt_le_dec pre 0) as [L|L].
+  - destruct (B2 L) as [Z1 Z2]. repeat split.
+    + intro H. lra.
+    + intro H. apply C11. lra.
+    + destruct (Qlt_le_dec (b_pop1 b - c_starve_death c) 0) as [M|M]; [rewrite C11; lra|rewrite C10; lra].
+  - specialize (B1 L). repeat split.
+    + intro H. rewrite C10; lra.
+    + intro H. apply C11. lra.
+    + destruct (Qlt_le_dec (b_pop1 b - c_starve_death c) 0) as [M|M]; [rewrite C11; lra|rewrite C10; lra].
+Qed.
+
+(* ---- hours budget of the greedy loop, per size class *)
+Fixpoint hours_used (z : size) (l : list (sstatic * phaseA)) (bs : list phaseB) : Q :=
+  match l, bs with
+  | (st, _) :: l', b :: bs' =>
+      (if size_eqb (st_size st) z then b_slaughter b * st_hours st else 0) + hours_used z l' bs'
+  | _, _ => 0
+  end.
+
+Definition hours_nonneg (h : hours3) : Prop := 0 <= hget h Small /\ 0 <= hget h Medium /\ 0 <= hget h Large.
+
+Lemma hget_hset_same : forall h z v, hget (hset h z v) z = v.
+Proof. intros [[a b] c] z v. destruct z; reflexivity. Qed.
+Lemma hget_hset_other : forall h z z' v, size_eqb z z' = false -> hget (hset h z v) z' = hget h z'.
+Proof. intros [[a b] c] z z' v H. destruct z, z'; try reflexivity; discriminate. Qed.
+Lemma size_eqb_refl : forall z, size_eqb z z = true.
+Proof. destruct z; reflexivity. Qed.
+
+Lemma phase_b_loop_hours : forall month0 all l h, Forall (fun x => static_ok (fst x)) l -> hours_nonneg h ->
+  let '(bs, h') := phase_b_loop month0 all l h in
+  hours_nonneg h' /\ List.length bs = List.length l /\
+  forall z, hours_used z l bs + hget h' z == hget h z.
+Proof.
+  intros month0 all l. induction l as [|[st a] l IH]; intros h Hok Hh; cbn [phase_b_loop].
+  - split; [exact Hh|]. split; [reflexivity|]. intro z. cbn. ring.
+  - inversion Hok as [|? ? Hst Hl]; subst. cbn [fst] in Hst.
+    set (b := phase_b month0 st a (transfer_of (st_sp st) all 0) (hget h (st_size st))).
+    assert (Hrem : 0 <= hget h (st_size st)) by (destruct Hh as (A & B & C); destruct (st_size st); assumption).
+    pose proof (phase_b_spec month0 st a (transfer_of (st_sp st) all 0) (hget h (st_size st)) Hst Hrem) as B.
+    cbn zeta in B. fold b in B.
+    destruct B as (_ & _ & _ & _ & _ & _ & _ & _ & _ & Br & Br0 & _).
+    assert (Hh' : hours_nonneg (hset h (st_size st) (b_remaining b))).
+    { destruct Hh as (A & B & C). destruct h as [[x y] w]. unfold hours_nonneg. destruct (st_size st); cbn in *; repeat split; assumption. }
+    specialize (IH (hset h (st_size st) (b_remaining b)) Hl Hh').
+    destruct (phase_b_loop month0 all l (hset h (st_size st) (b_remaining b))) as [bs h'].
+    destruct IH as (I1 & I2 & I3).
+    split; [exact I1|]. split; [cbn [List.length]; rewrite I2; reflexivity|].
+    intro z. cbn [hours_used]. specialize (I3 z).
+    destruct (size_eqb (st_size st) z) eqn:E.
+    + assert (st_size st = z) by (destruct (st_size st), z; try discriminate; reflexivity). subst z.
+      rewrite hget_hset_same in I3. lra.
+    + rewrite (hget_hset_other _ _ _ _ E) in I3. lra.
+Qed.
+
+Lemma hours_used_le : forall month0 all l h, Forall (fun x => static_ok (fst x)) l -> hours_nonneg h ->
+  forall z, hours_used z l (fst (phase_b_loop month0 all l h)) <= hget h z.
+Proof.
+  intros month0 all l h Hok Hh z. pose proof (phase_b_loop_hours month0 all l h Hok Hh) as P.
+  destruct (phase_b_loop month0 all l h) as [bs h']. cbn [fst]. destruct P as ((A & B & C) & _ & P).
+  specialize (P z). destruct z; cbn in *; lra.
+Qed.
+
+Lemma hours_of_size_nonneg : forall z l, Forall static_ok l -> 0 <= hours_of_size z l.
+Proof.
+  intros z l H. induction H as [|st l Hst Hl IH]; cbn [hours_of_size]; [lra|].
+  destruct Hst as (Hh & Hbs & _). destruct (size_eqb (st_size st) z); nra.
+Qed.
+
+(* ---- transfers: what the meat herd receives is what the dairy herd of the species sends *)
+Lemma transfer_of_last : forall sp l2 l1 stm am acc,
+  st_milk stm = true -> st_sp stm = sp ->
+  Forall (fun x => st_milk (fst x) && Nat.eqb (st_sp (fst x)) sp = false) l2 ->
+  transfer_of sp (l1 ++ (stm, am) :: l2) acc = a_ret am + a_tbirths am.
+Proof.
+  intros sp l2. assert (K : forall acc, Forall (fun x => st_milk (fst x) && Nat.eqb (st_sp (fst x)) sp = false) l2 ->
+                              transfer_of sp l2 acc = acc).
+  { induction l2 as [|[st a] l2 IH]; intros acc H; cbn [transfer_of]; [reflexivity|].
+    inversion H as [|? ? H1 H2]; subst. cbn [fst] in H1. rewrite H1. apply IH. exact H2. }
+  induction l1 as [|[st a] l1 IH]; intros stm am acc Hm Hs Hl2; cbn [app transfer_of].
+  - rewrite Hm, Hs, Nat.eqb_refl. cbn [andb]. apply K. exact Hl2.
+  - apply IH; assumption.
+Qed.
+
+Lemma transfer_of_none : forall sp l acc,
+  Forall (fun x => st_milk (fst x) && Nat.eqb (st_sp (fst x)) sp = false) l -> transfer_of sp l acc = acc.
+Proof.
+  intros sp l. induction l as [|[st a] l IH]; intros acc H; cbn [transfer_of]; [reflexivity|].
+  inversion H as [|? ? H1 H2]; subst. cbn [fst] in H1. rewrite H1. apply IH. exact H2.
+Qed.
+
+(* ---- births and the carried state stay non-negative *)
+Lemma phase_a_nonneg : forall m st s, static_ok st -> state_ok s ->
+  let a := phase_a m (st, s) in
+  state_ok (a_state a) /\ s_pop (a_state a) = s_pop s /\
+  0 <= a_births a /\ (st_cull st <= 1 -> 1 <= st_ratio st -> 0 <= a_tbirths a) /\ 0 <= a_ret a /\
+  a_tbirths a == a_births a * (st_ratio st - 1) * (1 - st_cull st) /\
+  a_ret a = s_pop s * st_retfrac st.
+Proof.
+  intros m st s Hok (Hp & Hs & Ht & Hb).
+  destruct Hok as (Hh & Hbs & Htg & Hd & Hsv & Hrf & Hpp & Hra & Hge & (Hr0 & Hr1)).
+  unfold phase_a, births, retiring, breeding.
+  destruct (Qle_bool (Qabs (m - st_gest st)) (1 # 2)); cbn [a_state a_births a_tbirths a_ret s_pop s_sl s_ptot s_pbirth];
+    unfold state_ok; cbn [s_pop s_sl s_ptot s_pbirth].
+  - assert (0 <= s_pbirth s * (1 - st_red st) * st_perpreg st)
+      by (apply Qmult_le_0_compat; [apply Qmult_le_0_compat|]; lra).
+    assert (0 <= s_pbirth s * (1 - st_red st) * st_perpreg st / st_ratio st) by (apply div_nonneg; assumption).
+    repeat split; try assumption; try reflexivity; try lra;
+      try (intros C R; apply Qmult_le_0_compat; [apply Qmult_le_0_compat|]; lra); try nra.
+  - assert (0 <= s_pbirth s * st_perpreg st) by nra.
+    assert (0 <= s_pbirth s * st_perpreg st / st_ratio st) by (apply div_nonneg; assumption).
+    repeat split; try assumption; try reflexivity; try lra;
+      try (intros C R; apply Qmult_le_0_compat; [apply Qmult_le_0_compat|]; lra); try nra.
+Qed.
